@@ -10,17 +10,24 @@
 (* byte-identical.  "e2e" events: serial and multithreaded Prio3 variants   *)
 (* under identical randomness -- all messages and the result identical.    *)
 (***************************************************************************)
-EXTENDS Integers, Sequences, FiniteSets, TLC, Json, IOUtils
+EXTENDS Integers, Sequences, SequencesExt, FiniteSets, TLC, Json, IOUtils
 Rec == ndJsonDeserialize(IOEnv.TRACEFILE)
 
-\* log: sequence of <<state id, chunk>> with chunk = -1 for "state created"
-Created(log, k) == {log[i][1] : i \in {j \in 1..k : log[j][2] = -1}}
+\* log: sequence of <<state id, chunk>> with chunk = -1 for "state created".
+\* The observed schedule is a behaviour of the fold contract iff, reading the log once: every state is created once (fresh
+\* identifier) before anything is folded into it, every fold names a chunk 0..n-1 not folded before, chunks arrive in
+\* ascending order within a state, and at the end every chunk has been folded exactly once.
 ScheduleOK(log, n) ==
-  /\ \A k \in 1..Len(log) : log[k][2] # -1 => log[k][1] \in Created(log, k - 1)          \* folds go into states created before
-  /\ \A c \in 0..(n - 1) : Cardinality({k \in 1..Len(log) : log[k][2] = c}) = 1            \* every chunk exactly once
-  /\ \A k \in 1..Len(log) : log[k][2] = -1 \/ log[k][2] \in 0..(n - 1)
-  /\ \A a, b \in 1..Len(log) : (a < b /\ log[a][1] = log[b][1] /\ log[a][2] # -1 /\ log[b][2] # -1) => log[a][2] < log[b][2]   \* in order within a state
-  /\ Cardinality({log[k][1] : k \in {j \in 1..Len(log) : log[j][2] = -1}}) = Cardinality({j \in 1..Len(log) : log[j][2] = -1})  \* fresh ids
+  LET Step(acc, ent) ==
+        LET id == ent[1]  c == ent[2] IN
+        IF c = -1
+        THEN [ok |-> acc.ok /\ id \notin DOMAIN acc.last, last |-> acc.last @@ (id :> -1), seen |-> acc.seen]
+        ELSE [ok |-> /\ acc.ok /\ id \in DOMAIN acc.last /\ c \in 0..(n - 1) /\ c \notin acc.seen
+                     /\ (id \in DOMAIN acc.last => acc.last[id] < c),
+              last |-> IF id \in DOMAIN acc.last THEN [acc.last EXCEPT ![id] = c] ELSE acc.last,
+              seen |-> acc.seen \cup {c}]
+      r == FoldLeft(Step, [ok |-> TRUE, last |-> << >>, seen |-> {}], log)
+  IN r.ok /\ r.seen = 0..(n - 1)
 
 EventOK(e) ==
   CASE e.ev = "run" -> ScheduleOK(e.log, e.chunks) /\ e.out_mt = e.out_serial /\ e.ok_mt /\ e.ok_serial
